@@ -78,7 +78,14 @@ TStr(s) == [k |-> "str", s |-> s]
 TLit(w) == [k |-> "lit", s |-> w]                       \* number / true / false / null, spelled as symbols
 TArr(items) == [k |-> "arr", items |-> items]
 TObj(key, v) == [k |-> "obj", s |-> key, items |-> <<v>>]      \* map[string]any with one (adversarial) key
-TStruct(a, b) == [k |-> "struct", items |-> <<a, b>>]   \* struct{ A any `json:"a"`; B any `json:"b"` }
+TStruct(a, b) == [k |-> "struct", items |-> <<a, b>>]
+(* Go CARRIERS of a value or of a leaf: the property quantifies over every Go value, so how the value is carried must not
+   matter -- it arrives as data and equals the JSON encoding of the plain value:
+     "ptr"        a pointer to it                      "named"      a named string type (type S string)
+     "raw"        json.RawMessage holding its JSON text as a non-HTML-escaping encoder wrote it
+     "marshaler"  a type whose MarshalJSON returns that text                                               *)
+TCar(c, t) == [k |-> "carrier", s |-> <<c>>, items |-> <<t>>]
+Carriers == <<"ptr", "named", "raw", "marshaler">>   \* struct{ A any `json:"a"`; B any `json:"b"` }
 
 RECURSIVE JoinComma(_)
 JoinComma(ss) == IF ss = <<>> THEN <<>> ELSE IF Len(ss) = 1 THEN ss[1] ELSE ss[1] \o <<",">> \o JoinComma(Tail(ss))
@@ -88,6 +95,7 @@ JsonText(t) ==
       [] t.k = "lit" -> t.s
       [] t.k = "arr" -> <<"[">> \o JoinComma([i \in 1..Len(t.items) |-> JsonText(t.items[i])]) \o <<"]">>
       [] t.k = "obj" -> <<"{">> \o JsonString(t.s) \o <<":">> \o JsonText(t.items[1]) \o <<"}">>
+      [] t.k = "carrier" -> JsonText(t.items[1])
       [] t.k = "struct" -> <<"{", DQ, "a", DQ, ":">> \o JsonText(t.items[1]) \o <<",", DQ, "b", DQ, ":">> \o JsonText(t.items[2]) \o <<"}">>
 
 Lits == { <<"0">>, <<"-","1",".","5">>, <<"1","2","3","4","5","6","7","8","9","0","1">>,
@@ -130,9 +138,23 @@ CLeaves(a, b) ==
                           preds |-> PredictAll(<<>>, jt, FALSE)]
             /\ UNCHANGED vars
 
+\* a carried string: carrier x where it sits x the string (every token of the adversarial alphabet and every leaf)
+CarrierStrings == [i \in 1..(Len(GenTokens) + Len(LeafTokens)) |-> IF i <= Len(GenTokens) THEN GenTokens[i] ELSE LeafTokens[i - Len(GenTokens)]]
+CarrierPlaces(c, leaf) == << TCar(c, leaf), TArr(<<TCar(c, leaf)>>), TStruct(TCar(c, leaf), TLit(<<"0">>)), TObj(<<"a">>, TCar(c, leaf)),
+                            TCar(c, TArr(<<leaf>>)) >>
+CCarrier(c, w, i) ==
+            /\ kind = "root"
+            /\ ~(Carriers[c] = "named" /\ w = 5)            \* the named type is a string type
+            /\ inp' = <<c, w, i>> /\ kind' = "car"
+            /\ LET t == CarrierPlaces(Carriers[c], TStr(CarrierStrings[i]))[w]
+                   jt == JsonText(t)
+               IN lbl' = [op |-> "value", tree |-> t, json |-> jt, preds |-> PredictAll(<<>>, jt, FALSE)]
+            /\ UNCHANGED vars
+
 CNext == \/ \E t \in 1..Len(GenTokens) : CFeed(t)
          \/ \E i \in 1..NShapes, key \in 1..Len(KeyTokens) : CShape(i, key)
          \/ \E a \in Leaves, b \in Leaves : CLeaves(a, b)
+         \/ \E c \in 1..Len(Carriers), w \in 1..5, i \in 1..(Len(GenTokens) + Len(LeafTokens)) : CCarrier(c, w, i)
 
 CView == <<inp, kind>>
 \* every prediction of a repaired model is clean; with the pinned table only the known signature may appear
